@@ -121,9 +121,10 @@ theorem life_events {s0 s1 : State} {pre post : List Req} {l : Req} (p : PreLife
       · exact fun x hx => p.g0.life.idle (h2 rfl).2 x (List.mem_append_right _ hx)
     obtain ⟨hp1, hp2⟩ := p.alone hno
     have hres1 : s1.resident = some ρ := by rw [v4]; exact hres
+    have hex1 : s1.executing = [r] := by rw [p.ex1, p.ex, hp1, hp2]; rfl
     rcases hcases with rfl | rfl | rfl
-    · rw [executeLife_stop_end hres1 hrn]; exact alone _ (by simp [lifeDone, endRun]) hp2
-    · rw [executeLife_restart_end hres1 hrn]; exact alone _ (by simp [endRun]) hp2
+    · rw [executeLife_stop_end hres1 hrn hex1]; exact alone _ (by simp [lifeDone, endRun]) hp2
+    · rw [executeLife_restart_end hres1 hrn hex1]; exact alone _ (by simp [endRun]) hp2
     · rw [executeLife_restart_begin hres1 hrn]; exact alone _ (by simp [lifeDone, beginRun]) hp2
 
 theorem exclP_append {cfg : Cfg} {a b : List Ev} (ha : ExclP cfg a) (hb : ExclP cfg b)
